@@ -19,40 +19,61 @@ from vlib import Suite, zlit, zlist, coqlist, blit
 
 ID = "C15"
 READY = True
-RULE = ("writer: schedules of 4-40 ops over {Save v, Shutdown, Crash, IoError, Tick} followed by a drain of Ticks, from "
-        "one PRNG, biased so that saves fall into the rate-limit sleep, between clear/deepcopy/open/write/replace, "
-        "shutdown falls before/after them, crashes and I/O errors hit every point of the temp-file write and the rename; "
-        "optional pre-existing file and left-over temp file; payloads cover the YAML scalar/collection types. "
-        "non-trivial = at least one save reached the temp-file write and (a save, shutdown, crash or error happened "
-        "while the thread was between clear() and the end of the rate-limit sleep). "
-        "fsave: 2-11 direct FileManager.save calls on two files through the real ruamel dumper: good / unrepresentable value / "
-        "OSError in the k-th write(); non-trivial = a good save follows a failed one. "
-        "vars: 3-14 ops set/configure/remove/advance on real MachineVariables then reboot at now+dt; "
-        "non-trivial = at least one persisted variable with an expiry on either side of the reboot time")
+RULE = ("writer: schedules of 4-40 ops over {Save v, Shutdown, Crash, IoError, CopyFail, Tick} followed by a drain of Ticks, "
+        "from one PRNG, biased so that saves fall into the rate-limit sleep, between clear/deepcopy/open/write/replace, "
+        "shutdown falls before/after them, crashes, I/O errors and failed snapshots hit every point; the first 114 cases put "
+        "a crash / an I/O error / a failed snapshot at every position of a fixed three-save history (+6 positions beyond its "
+        "nominal end); every os-level call of the writer thread that changes the directory (audit hook) is a hand-over "
+        "and crash point; optional pre-existing file and left-over temp file; payloads cover the YAML value types. "
+        "non-trivial = a save reached the temp-file write and an op hit the thread between clear() and the end of the "
+        "rate-limit sleep. "
+        "two: two real managers/threads sharing is_busy, 10-120 ops tagged with the thread that moves, both threads walked "
+        "into the test-and-set window together; non-trivial = both inside FileManager.save at once or one at the flag "
+        "test while the other writes. "
+        "snap: live dict of 2-6 cells, main thread assigns cells at a pre-emption point inside the real deepcopy; "
+        "non-trivial = assignments on both sides of the copy position. "
+        "fsave: 2-11 direct FileManager.save calls on two files through the real ruamel dumper: good / unrepresentable "
+        "value / OSError in the k-th write(); non-trivial = a good save follows a failed one. "
+        "vars: 3-14 ops set/configure/remove/advance on real MachineVariables with values of every YAML kind (falsy ones, "
+        "equal values of different types, same value set again before its deadline), reboot at a time on either side of / "
+        "exactly at a deadline the history produced, optionally from a missing/empty/corrupt/non-UTF-8/list/scalar file "
+        "or one with a malformed entry; non-trivial = a persisted variable exists at the reboot")
 TRUSTED_BASE = [
     "Coq 8.16.1 kernel (coqc), vm_compute for refutation witnesses and for evaluating the model in the correspondence run",
     "axioms: none (every Print Assumptions is 'Closed under the global context')",
-    "hand-written model coq/C15/Model.v (program-counter machine of _writing_thread + FileManager.save + disk) tied to the "
-    "working tree by lock-stepping the real thread (harness/props/c15.py) and comparing flags and directory contents "
-    "after every op",
+    "hand-written models coq/C15/Model.v (pc machine of _writing_thread + FileManager.save + disk; machine variables), "
+    "Two.v (two such threads sharing is_busy/stopper), Copy.v (cell-wise deepcopy) tied to the working tree by "
+    "lock-stepping the real threads (harness/props/c15.py) and comparing flags and directory contents after every op; "
+    "Crash.v (os-call sequences, power loss) is model-only except that the observed call sequence of the real save is "
+    "what its save_calls lists",
     "the lock-step shims (time.sleep, threading.Event, copy.deepcopy, _thread.start_new_thread as seen by "
-    "mpf.core.data_manager; os.replace as seen by mpf.core.file_manager; open() as seen by "
-    "mpf.file_interfaces.yaml_interface, which buffers ruamel's writes and emits them in two chunks; the first hand-over "
-    "of a write is inside the real dump()); suite fsave uses the real yaml layer with a pass-through file object",
-    "CPython file I/O, os.replace atomicity (POSIX rename), ruamel.yaml dump/load (round trip checked by the oracle)",
+    "mpf.core.data_manager; open() as seen by mpf.file_interfaces.yaml_interface, which buffers ruamel's writes and emits "
+    "them in two chunks, first hand-over inside the real dump()); a sys audit hook that turns every os.rename/replace/"
+    "remove/link/truncate/mkdir/rmdir/shutil.move/write-open of a writer thread into a hand-over point; the CopyHook "
+    "value (a pre-emption point inside the real deepcopy at which the 'main thread' inserts a key or assigns values); "
+    "suite fsave uses the real yaml layer with a pass-through file object",
+    "the oracle's definition of a variable's expiry time: expire_secs after the last set/configure of that variable, "
+    "computed from the history (spec_deadlines)",
+    "CPython file I/O, dict iteration semantics, os.replace atomicity (POSIX rename), ruamel.yaml dump/load (round trip "
+    "checked by the oracle)",
 ]
 ASSUMPTIONS = [
-    "process-crash model: what a crash leaves behind is what had been written+flushed at the last hand-over point; "
-    "no power-loss / fsync reordering semantics",
-    "one DataManager (one writer thread); two managers racing on the unlocked FileManager.is_busy test-and-set are not modelled",
-    "clean shutdown = thread_stopper set and the writer thread allowed to run to its end (MachineController.shutdown "
-    "does not join the thread; see NOTES.md)",
-    "statement granularity: the thread is only pre-empted at calls the harness can intercept; is_busy reads/writes "
-    "are merged with the adjacent intercepted call",
+    "process-crash model: what a crash leaves behind is what had been written+flushed at the last hand-over point. "
+    "Power loss is modelled only (Crash.v): with ordered write-back the durable file is never torn, with unordered "
+    "write-back it can be empty - the code does not fsync; not tied to the code",
+    "two managers stand for several: the theorems are about two threads, the flag logic is symmetric",
+    "liveness under interference needs fairness: stated for rounds in which the threads take turns",
+    "clean shutdown = thread_stopper set and the writer threads allowed to run to their end (MachineController.shutdown "
+    "does not join them; see NOTES.md)",
+    "statement granularity: a thread is only pre-empted at calls the harness can intercept; is_busy reads/writes "
+    "are merged with the adjacent intercepted call; one pre-emption point inside deepcopy",
+    "machine-variable values are tokens for ==-classes of Python values; the YAML round trip of the values is checked on "
+    "the code, not modelled",
 ]
 
 VARIANT = os.environ.get("C15_VARIANT", "fixed")     # "orig": compare with the model of the unpatched code (development aid)
-CFG = {"fixed": "(true, true)", "orig": "(false, false)", "flush": "(true, false)", "busy": "(false, true)"}[VARIANT]
+CFG = {"fixed": "(true, true, true)", "orig": "(false, false, false)", "flush": "(true, false, true)",
+       "busy": "(false, true, true)", "nocopyfix": "(true, true, false)"}[VARIANT]
 
 DRAIN = 26
 IO_POINTS = ("open", "w1", "w2", "replace")
@@ -61,11 +82,17 @@ PC_CODE = {"sleep1": 1, "stop?": 2, "wait": 3, "sleep02": 4, "clear": 5, "copy":
 
 # ------------------------------------------------------------------------------------------------
 # lock-step machinery
-CUR = None          # the controller of the case that is running in this worker process
+CTLS = {}           # thread ident -> controller of that writer thread (threads of the case running in this worker)
+NEXT_CTL = []       # controllers waiting for their thread: bound, in order, by _start_new_thread
+PC_FSOP = 20        # an os-level call of the writer thread that changes the directory and is not one the model knows
+
+
+def cur():
+    return CTLS.get(threading.get_ident())
 
 
 class Ctl:
-    def __init__(self):
+    def __init__(self, fname=None, tname=None):
         self.go = threading.Semaphore(0)
         self.ready = threading.Semaphore(0)
         self.at = None
@@ -73,6 +100,10 @@ class Ctl:
         self.wid = None
         self.exc = None
         self.thread = None
+        self.fname = fname          # the data file / temp file of this manager (labels of the os-level calls)
+        self.tname = tname
+        self.quiet = 0              # >0: the harness itself is doing I/O on this thread (ChunkedFile)
+        self.calls = []             # observed sequence of os-level calls that change the directory
 
     def kill(self):
         """abandon the writer thread where it stands (it unwinds with SystemExit) and wait until it is gone, so that
@@ -82,9 +113,6 @@ class Ctl:
             self.go.release()
         if self.thread is not None:
             self.thread.join(10)
-
-    def in_writer(self):
-        return self.wid is not None and threading.get_ident() == self.wid
 
     def hand_over(self, label):
         """called by the writer thread at every intercepted call"""
@@ -110,6 +138,34 @@ class Ctl:
             raise RuntimeError("writer thread did not start")
 
 
+_WRITE_FLAGS = os.O_WRONLY | os.O_RDWR | os.O_CREAT | os.O_TRUNC | os.O_APPEND
+_FS_EVENTS = {"os.remove", "os.link", "os.symlink", "os.truncate", "os.rmdir", "os.mkdir", "shutil.move",
+              "shutil.copyfile", "shutil.copytree", "shutil.rmtree", "os.chmod", "os.utime"}
+
+
+def _audit(event, args):
+    """sys audit hook: EVERY os-level call of a writer thread that changes the directory is a hand-over point (and so
+    a crash point), whichever module makes it.  os.replace/os.rename onto the data file from its temp file is the
+    model's 'replace'; anything else is 'fsop' (a call the model does not know)."""
+    if not CTLS:
+        return
+    c = CTLS.get(threading.get_ident())
+    if c is None or c.quiet:
+        return
+    if event == "os.rename":
+        src, dst = os.fsdecode(args[0]), os.fsdecode(args[1])
+        c.calls.append(["rename", os.path.basename(src), os.path.basename(dst)])
+        c.hand_over("replace" if dst == c.fname and src == c.tname else "fsop")
+    elif event in _FS_EVENTS:
+        c.calls.append([event] + [os.path.basename(os.fsdecode(a)) for a in args[:2] if isinstance(a, (str, bytes))])
+        c.hand_over("fsop")
+    elif event == "open":
+        path, mode, flags = (list(args) + [None, None])[:3]
+        if isinstance(flags, int) and flags & _WRITE_FLAGS and isinstance(path, (str, bytes)):
+            c.calls.append(["open-w", os.path.basename(os.fsdecode(path))])
+            c.hand_over("fsop")
+
+
 class StepEvent:
     """threading.Event as seen by mpf.core.data_manager (and the fake machine's thread_stopper)"""
 
@@ -120,8 +176,8 @@ class StepEvent:
         self.nset = 0
 
     def is_set(self):
-        c = CUR
-        if c is not None and c.in_writer():
+        c = cur()
+        if c is not None:
             c.hand_over(self.label)
         return self._flag
 
@@ -130,14 +186,14 @@ class StepEvent:
         self.nset += 1
 
     def clear(self):
-        c = CUR
-        if c is not None and c.in_writer():
+        c = cur()
+        if c is not None:
             c.hand_over("clear")
         self._flag = False
 
     def wait(self, timeout=None):
-        c = CUR
-        if c is not None and c.in_writer():
+        c = cur()
+        if c is not None:
             c.hand_over("wait")
         return self._flag
 
@@ -156,8 +212,8 @@ class _Shim:
 
 
 def _sleep(secs):
-    c = CUR
-    if c is not None and c.in_writer():
+    c = cur()
+    if c is not None:
         c.hand_over("sleep1" if secs >= 1 else "sleep02")
         return
     raise RuntimeError("time.sleep outside the writer thread")
@@ -165,36 +221,56 @@ def _sleep(secs):
 
 def _deepcopy(x, *a, **k):
     import copy
-    c = CUR
-    if c is not None and c.in_writer():
+    c = cur()
+    if c is not None:
         c.hand_over("copy")
     return copy.deepcopy(x, *a, **k)
 
 
+class CopyHook:
+    """a pre-emption point INSIDE copy.deepcopy(self.data).  The live dict handed to save_all carries one of these as
+    its first value (its deep copy is the plain int 0, so what reaches the YAML dumper is plain data).  When the
+    schedule says so (op 'M' while the thread stands at the deepcopy), the 'main thread' inserts a key into the live
+    dict at this point, as Auditor / credits / high_score do with the dict they share with their data manager:
+    CPython's dict iterator then raises RuntimeError('dictionary changed size during iteration') in the real deepcopy."""
+
+    def __init__(self, owner):
+        self.owner = owner
+        self.grown = 0
+        self.assigns = []
+
+    def __deepcopy__(self, memo):
+        c = cur()
+        if c is not None and c.cmd == "mutate" and c.at == "copy":
+            self.grown += 1
+            self.owner["zz_grow%d" % self.grown] = self.grown
+        if c is not None and c.cmd == "assign" and c.at == "copy":
+            for k, v in self.assigns:            # the main thread assigns existing keys (no change of size)
+                self.owner[k] = v
+        return 0
+
+
 def _start_new_thread(fn, args=(), kwargs=None):
-    c = CUR
+    c = NEXT_CTL.pop(0)
 
     def body():
         c.wid = threading.get_ident()
+        CTLS[c.wid] = c
         try:
-            fn(*args, **(kwargs or {}))
-        except SystemExit:
-            return
-        except BaseException as e:   # noqa: an exception that escapes _writing_thread ends the thread
-            c.exc = type(e).__name__
-        c.at = "done"
-        c.ready.release()
+            try:
+                fn(*args, **(kwargs or {}))
+            except SystemExit:
+                return
+            except BaseException as e:   # noqa: an exception that escapes _writing_thread ends the thread
+                c.exc = type(e).__name__
+            c.at = "done"
+            c.ready.release()
+        finally:
+            CTLS.pop(c.wid, None)
     t = threading.Thread(target=body, daemon=True)
     c.thread = t
     t.start()
     return t.ident
-
-
-def _replace(src, dst):
-    c = CUR
-    if c is not None and c.in_writer():
-        c.hand_over("replace")
-    os.replace(src, dst)
 
 
 class ChunkedFile:
@@ -205,8 +281,13 @@ class ChunkedFile:
 
     def __init__(self, c, filename, mode, **kw):
         self.c = c
-        c.hand_over("open")
-        self.f = open(filename, mode, **kw)
+        c.calls.append(["open-w", os.path.basename(filename)])
+        c.hand_over("open" if filename == c.tname else "fsop")
+        c.quiet += 1
+        try:
+            self.f = open(filename, mode, **kw)
+        finally:
+            c.quiet -= 1
         self.buf = []
         self.started = False
 
@@ -277,8 +358,8 @@ FS_FAULT = None      # suite fsave: {"k": n} -> the next open(..., 'w') by the y
 
 
 def _open(filename, mode="r", *a, **kw):
-    c = CUR
-    if c is not None and c.in_writer() and "w" in mode:
+    c = cur()
+    if c is not None and "w" in mode:
         return ChunkedFile(c, filename, mode, *a, **kw)
     global FS_FAULT
     if c is None and FS_FAULT is not None and "w" in mode:
@@ -305,8 +386,9 @@ def install_shims():
     dmm.threading = _Shim(threading, Event=StepEvent)
     dmm.copy = _Shim(copy, deepcopy=_deepcopy)
     dmm._thread = _Shim(_thread, start_new_thread=_start_new_thread)
-    fmm.os = _Shim(os, replace=_replace)
     yim.open = _open
+    import sys
+    sys.addaudithook(_audit)
     logging.disable(logging.CRITICAL)
     _patched = True
 
@@ -329,7 +411,7 @@ class FakeMachine:
     def __init__(self, path, name, fname):
         self.machine_path = path
         self.options = {"production": False}
-        self.config = {"mpf": {"paths": {name: fname}, "save_machine_vars_to_disk": True},
+        self.config = {"mpf": {"paths": {name: fname} if name else {}, "save_machine_vars_to_disk": True},
                        "logging": {"console": {"data_manager": "none", "machine_vars": "none"},
                                    "file": {"data_manager": "none", "machine_vars": "none"}}}
         self.thread_stopper = StopEvent()
@@ -357,9 +439,12 @@ def rvalue(rng, depth=0):
     return {rng.choice(KEYS): rvalue(rng, depth + 1) for _ in range(rng.randint(0, 3))}
 
 
-def payload(pseed, v):
+def payload(pseed, v, hook=False):
     rng = random.Random(pseed * 7919 + v)
-    d = {"v": v}
+    d = {}
+    if hook:
+        d["!hook"] = CopyHook(d)        # first value: the pre-emption point inside deepcopy (its copy is the int 0)
+    d["v"] = v
     for _ in range(rng.choice([0, 1, 2, 3, 5])):
         d[rng.choice(KEYS)] = rvalue(rng)
     return d
@@ -371,6 +456,8 @@ def canon(x):
         return "{" + ",".join(sorted(canon(k) + ":" + canon(v) for k, v in x.items())) + "}"
     if isinstance(x, list):
         return "[" + ",".join(canon(v) for v in x) + "]"
+    if isinstance(x, CopyHook):
+        x = 0
     return type(x).__name__ + ":" + repr(x)
 
 
@@ -379,24 +466,29 @@ def canon(x):
 HIST3 = ["T", "T", "S1"] + ["T"] * 9 + ["S2"] + ["T"] * 4 + ["S3"] + ["T"] * 14     # three saves, the third lands mid-write
 
 
+NEXH = 3 * (len(HIST3) + 6)
+
+
 def gen_writer(rng, tier, i):
-    if i < 2 * len(HIST3):
-        # exhaustive: a crash (even i) or an I/O error (odd i) at every point of a fixed three-save history
-        k = i // 2
-        ops = HIST3[:k] + ["C" if i % 2 == 0 else "E"] + HIST3[k:] + ["T"] * DRAIN
-        return {"ops": ops, "pseed": rng.randrange(10 ** 6), "init_file": i % 3 == 0, "init_temp": 0}
+    if i < NEXH:
+        # exhaustive: a crash / an I/O error / a failed snapshot at every point of a fixed three-save history (and 6
+        # positions beyond its nominal end: a changed save procedure that makes more os-level calls has more
+        # hand-over points, every one of them is a crash point)
+        k = i // 3
+        ops = HIST3[:k] + ["CEM"[i % 3]] + HIST3[k:] + ["T"] * DRAIN
+        return {"ops": ops, "pseed": rng.randrange(10 ** 6), "init_file": i % 2 == 0, "init_temp": 0}
     n = rng.choice([4, 6, 8, 10, 12, 16, 20, 28, 40])
     style = rng.random()
     ops = []
     nv = 0
     shut = False
-    w = {"T": 60, "S": 18, "H": 5, "C": 4, "E": 6}
+    w = {"T": 60, "S": 18, "H": 5, "C": 4, "E": 6, "M": 4}
     if style < 0.25:          # error-heavy
-        w = {"T": 55, "S": 18, "H": 3, "C": 2, "E": 22}
+        w = {"T": 55, "S": 18, "H": 3, "C": 2, "E": 16, "M": 10}
     elif style < 0.45:        # crash-heavy
-        w = {"T": 60, "S": 18, "H": 3, "C": 12, "E": 4}
+        w = {"T": 60, "S": 18, "H": 3, "C": 12, "E": 4, "M": 2}
     elif style < 0.65:        # shutdown-heavy, fault free
-        w = {"T": 55, "S": 25, "H": 14, "C": 0, "E": 0}
+        w = {"T": 55, "S": 25, "H": 14, "C": 0, "E": 0, "M": 0}
     kinds = list(w)
     weights = [w[k] for k in kinds]
     if rng.random() < 0.5:
@@ -423,40 +515,32 @@ def gen_writer(rng, tier, i):
     return {"ops": ops, "pseed": rng.randrange(10 ** 6), "init_file": init_file, "init_temp": init_temp}
 
 
-class WriterRun:
-    def __init__(self, case):
-        global CUR
-        install_shims()
-        from mpf.core.file_manager import FileManager
-        from mpf.core.data_manager import DataManager
-        self.FileManager = FileManager
-        FileManager.is_busy = False
-        self.case = case
-        self.dir = tempfile.mkdtemp(prefix="verif_c15_")
-        self.fname = os.path.join(self.dir, "data", "store.yaml")
-        self.tname = os.path.join(self.dir, "data", "_store.yaml")
-        self.versions = {}          # id -> canonical text
-        self.texts = {}
-        os.makedirs(os.path.join(self.dir, "data"))
-        if not FileManager.initialized:
-            FileManager.init()
-        if case.get("init_file"):
-            self._plain_write(self.fname, 100, 3)
-        if case.get("init_temp"):
-            self._plain_write(self.tname, 101, case["init_temp"])
-        self.ctl = Ctl()
-        CUR = self.ctl
-        self.machine = FakeMachine(self.dir, "store", "data/store.yaml")
-        self.dm = DataManager(self.machine, "store", min_wait_secs=1)
-        self.ctl.wait_started()
-        self.crashed = False
+class Mgr:
+    """one REAL DataManager with its lock-stepped REAL writer thread, its file and its versions"""
 
-    def _plain_write(self, path, v, how):
+    def __init__(self, run, key, first_version=0):
+        from mpf.core.data_manager import DataManager
+        self.run = run
+        self.key = key
+        self.fname = os.path.join(run.dir, "data", key + ".yaml")
+        self.tname = os.path.join(run.dir, "data", "_" + key + ".yaml")
+        self.versions = {}          # id -> list of canonical texts (a live dict that grew keeps its id)
+        self.live = {}              # id -> the live dict handed to save_all
+        self.ctl = Ctl(self.fname, self.tname)
+        self.pseed = run.case["pseed"] + (0 if key == "store" else 17)
+
+    def start(self):
+        from mpf.core.data_manager import DataManager
+        NEXT_CTL.append(self.ctl)
+        self.dm = DataManager(self.run.machine, self.key, min_wait_secs=1)
+        self.ctl.wait_started()
+
+    def plain_write(self, path, v, how):
         """pre-existing files (written with the real YamlInterface, outside the writer thread)"""
-        p = payload(self.case["pseed"], v)
-        self.versions[v] = canon(p)
+        p = payload(self.pseed, v)
+        self.versions[v] = [canon(p)]
         tmp = path + ".gen"
-        self.FileManager.file_interfaces[".yaml"].save(tmp, p)
+        self.run.FileManager.file_interfaces[".yaml"].save(tmp, p)
         txt = open(tmp, encoding="utf8").read()
         os.unlink(tmp)
         with open(path, "w", encoding="utf8") as f:
@@ -469,68 +553,118 @@ class WriterRun:
         if os.path.getsize(path) == 0:
             return ("empty",)
         try:
-            d = self.FileManager.load(path, halt_on_error=True)
+            d = self.run.FileManager.load(path, halt_on_error=True)
         except Exception:
             return ("torn",)
         c = canon(d)
-        for v, t in self.versions.items():
-            if t == c:
+        for v, ts in self.versions.items():
+            if c in ts:
                 return ("ver", v)
         return ("torn",)
 
-    def observe(self):
+    def codes(self):
         f = self.classify(self.fname)
         t = self.classify(self.tname)
         fz = 0 if f is None else f[1] if f[0] == "ver" else -1 if f[0] == "torn" else -2
         tz = [0, 0] if t is None else [1, 0] if t[0] == "empty" else [3, t[1]] if t[0] == "ver" else [2, 0]
-        if self.crashed:
-            return [99, 0, 0, 0, fz] + tz
-        return [PC_CODE[self.ctl.at], int(self.dm._dirty._flag), int(bool(self.FileManager.is_busy)),
-                int(self.machine.thread_stopper._flag), fz] + tz
+        return [fz] + tz
 
-    def op(self, o):
-        if self.crashed:
-            return
-        if o[0] == "S":
-            v = int(o[1:])
-            p = payload(self.case["pseed"], v)
-            self.versions[v] = canon(p)
-            self.dm.save_all(p)
-        elif o == "H":
-            self.machine.thread_stopper.set()
-        elif o == "C":
-            self.crashed = True
-        elif o == "E":
-            self.ctl.resume("fault")
-        else:
-            self.ctl.resume("tick")
+    def pc(self):
+        return PC_CODE.get(self.ctl.at, PC_FSOP)
+
+    def save(self, v):
+        p = payload(self.pseed, v, hook=True)
+        self.live[v] = p
+        self.versions[v] = [canon(p)]
+        self.dm.save_all(p)
+
+    def step(self, cmd):
+        self.ctl.resume(cmd)
+        if cmd == "mutate":
+            for v, p in self.live.items():       # a live dict that grew: its new content is a (later) state of version v
+                c = canon(p)
+                if c not in self.versions[v]:
+                    self.versions[v].append(c)
+
+    def extra_files(self):
+        d = os.path.dirname(self.fname)
+        return sorted(n for n in os.listdir(d) if self.key in n and
+                      os.path.join(d, n) not in (self.fname, self.tname))
+
+
+class WriterRun:
+    def __init__(self, case, keys=("store",)):
+        install_shims()
+        from mpf.core.file_manager import FileManager
+        self.FileManager = FileManager
+        FileManager.is_busy = False
+        self.case = case
+        self.dir = tempfile.mkdtemp(prefix="verif_c15_")
+        os.makedirs(os.path.join(self.dir, "data"))
+        if not FileManager.initialized:
+            FileManager.init()
+        del NEXT_CTL[:]
+        self.machine = FakeMachine(self.dir, None, None)
+        self.machine.config["mpf"]["paths"] = {k: "data/%s.yaml" % k for k in keys}
+        self.mgrs = [Mgr(self, k) for k in keys]
+        self.crashed = False
+
+    def start(self):
+        for m in self.mgrs:
+            m.start()
+
+    def flags(self):
+        return [int(bool(self.FileManager.is_busy)), int(self.machine.thread_stopper._flag)]
 
     def close(self):
-        global CUR
         try:
-            self.ctl.kill()
+            for m in self.mgrs:
+                m.ctl.kill()
         finally:
-            CUR = None
+            del NEXT_CTL[:]
             self.FileManager.is_busy = False
             shutil.rmtree(self.dir, ignore_errors=True)
 
 
+CMD = {"T": "tick", "E": "fault", "M": "mutate"}
+
+
 def run_writer(case):
     r = WriterRun(case)
+    m = r.mgrs[0]
     try:
-        obs = [r.observe()]
+        if case.get("init_file"):
+            m.plain_write(m.fname, 100, 3)
+        if case.get("init_temp"):
+            m.plain_write(m.tname, 101, case["init_temp"])
+        r.start()
+
+        def observe():
+            if r.crashed:
+                return [99, 0, 0, 0] + m.codes()
+            return [m.pc(), int(m.dm._dirty._flag)] + r.flags() + m.codes()
+        obs = [observe()]
         for o in case["ops"]:
-            r.op(o)
-            obs.append(r.observe())
+            if r.crashed:
+                pass
+            elif o[0] == "S":
+                m.save(int(o[1:]))
+            elif o == "H":
+                r.machine.thread_stopper.set()
+            elif o == "C":
+                r.crashed = True
+            else:
+                m.step(CMD[o])
+            obs.append(observe())
         # what the next boot would load (real DataManager._load path: FileManager.load(halt_on_error=False))
         boot = None
-        if os.path.isfile(r.fname):
+        if os.path.isfile(m.fname):
             try:
-                boot = canon(r.FileManager.load(r.fname, halt_on_error=False))
+                boot = canon(r.FileManager.load(m.fname, halt_on_error=False))
             except Exception as e:
                 boot = "EXC:" + type(e).__name__
-        return {"obs": obs, "boot": boot, "versions": {str(k): v for k, v in r.versions.items()},
-                "thread_exc": r.ctl.exc}
+        return {"obs": obs, "boot": boot, "versions": {str(k): v for k, v in m.versions.items()},
+                "thread_exc": m.ctl.exc, "calls": m.ctl.calls[:60], "extra": m.extra_files()}
     finally:
         r.close()
 
@@ -538,7 +672,7 @@ def run_writer(case):
 def coq_op(o):
     if o[0] == "S":
         return "(Save %s)" % o[1:]
-    return {"H": "Shutdown", "C": "Crash", "E": "IoError", "T": "Tick"}[o]
+    return {"H": "Shutdown", "C": "Crash", "E": "IoError", "T": "Tick", "M": "CopyFail"}[o]
 
 
 def coq_writer(case, out):
@@ -554,8 +688,9 @@ def writer_facts(case, out):
     crashed_at = next((i for i, o in enumerate(ops) if o == "C"), None)
     live = ops if crashed_at is None else ops[:crashed_at]
     saves = [(i, int(o[1:])) for i, o in enumerate(live) if o[0] == "S"]
-    # an IoError op only is a fault when the thread stood at an I/O point when it was delivered
-    faults = [i for i, o in enumerate(live) if o == "E" and obs[i][0] in (7, 8, 9, 10)]
+    # an IoError op only is a fault when the thread stood at an I/O point when it was delivered, a CopyFail op when it
+    # stood at the deepcopy
+    faults = [i for i, o in enumerate(live) if (o == "E" and obs[i][0] in (7, 8, 9, 10)) or (o == "M" and obs[i][0] == 6)]
     shut = next((i for i, o in enumerate(live) if o == "H"), None)
     return crashed_at, saves, faults, shut
 
@@ -584,7 +719,7 @@ def oracle_writer(case, out):
     crashed_at, saves, faults, shut = writer_facts(case, out)
     last = obs[-1]
     # what the next boot loads must be that complete version, type-exact (YAML round trip)
-    if last[4] > 0 and out["boot"] != out["versions"].get(str(last[4])):
+    if last[4] > 0 and out["boot"] not in out["versions"].get(str(last[4]), []):
         fails.append({"sig": "boot-load-differs", "what": "next boot does not load the version on disk"})
     if out.get("thread_exc") and not faults:
         fails.append({"sig": "thread-died", "what": "writer thread died with %s without an injected fault" % out["thread_exc"]})
@@ -600,7 +735,12 @@ def oracle_writer(case, out):
         return fails            # the write of the last version itself was hit by the injected fault
     settled = last[0] == 12 or (last[0] in (2, 3) and last[1] == 0)
     if last[4] != v:
-        if faults:
+        if faults and ops[faults[-1]] == "M":
+            fails.append({"sig": "lost-save-after-failed-snapshot",
+                          "what": "the live dict changed size while the writer thread copied it (deepcopy raised); "
+                                  "version %d saved AFTER that never reached the disk (thread at pc %d, died with %s)"
+                                  % (v, last[0], out.get("thread_exc"))})
+        elif faults:
             fails.append({"sig": "lost-save-after-failed-write",
                           "what": "version %d saved after the last failed write never reached the disk "
                                   "(thread at pc %d, is_busy=%d)" % (v, last[0], last[2])})
@@ -632,15 +772,301 @@ def nontrivial_writer(case, out):
     obs = out["obs"]
     ops = case["ops"]
     wrote = any(o[0] in (8, 9, 10) for o in obs)
-    mid = any(ops[i][0] in "SHCE" and obs[i][0] in (1, 5, 6, 7, 8, 9, 10) and i > 0 for i in range(len(ops)))
+    mid = any(ops[i][0] in "SHCEM" and obs[i][0] in (1, 5, 6, 7, 8, 9, 10) and i > 0 for i in range(len(ops)))
     return wrote and mid
 
 
 def describe_writer(case):
     ops = case["ops"]
-    return "saves=%d%s%s%s" % (min(sum(1 for o in ops if o[0] == "S"), 5), " shut" if "H" in ops else "",
-                               " crash" if "C" in ops else "", " err" if "E" in ops else "")
+    return "saves=%d%s%s%s%s" % (min(sum(1 for o in ops if o[0] == "S"), 5), " shut" if "H" in ops else "",
+                                 " crash" if "C" in ops else "", " err" if "E" in ops else "",
+                                 " copyfail" if "M" in ops else "")
 
+
+# ------------------------------------------------------------------------------------------------
+# suite "two": TWO real DataManagers (two files, two real writer threads) sharing FileManager.is_busy and the machine's
+# thread_stopper; the schedule says which thread moves, so the threads are interleaved at every hand-over point, in
+# particular between a thread's test of is_busy and its own `is_busy = True` (the unlocked test-and-set).
+def gen_two(rng, tier, i):
+    ops = []
+    nv = {"a": 0, "b": 200}
+    style = rng.random()
+    w = {"T": 64, "S": 16, "H": 4, "C": 3, "E": 8, "M": 3}
+    if style < 0.3:           # fault free: clean shutdown of both
+        w = {"T": 66, "S": 20, "H": 10, "C": 0, "E": 0, "M": 0}
+    elif style < 0.5:         # error heavy
+        w = {"T": 60, "S": 16, "H": 2, "C": 1, "E": 16, "M": 6}
+    kinds = list(w)
+    weights = [w[k] for k in kinds]
+    for t in "ab":
+        ops += [t + "T"] * rng.choice([0, 1, 2, 3])
+    if rng.random() < 0.5:    # both threads walk into the race window together
+        for t in "ab":
+            nv[t] += 1
+            ops.append("%sS%d" % (t, nv[t]))
+        for _ in range(rng.choice([2, 3, 4, 6, 8, 12])):
+            ops += ["aT", "bT"] if rng.random() < 0.7 else [rng.choice("ab") + "T"]
+    shut = False
+    for _ in range(rng.choice([4, 8, 12, 16, 24, 32])):
+        k = rng.choices(kinds, weights)[0]
+        t = rng.choice("ab")
+        if k == "S":
+            nv[t] += 1
+            ops.append("%sS%d" % (t, nv[t]))
+            if rng.random() < 0.5:
+                ops += [t + "T"] * rng.choice([1, 2, 3, 4, 5, 6, 8])
+        elif k == "H":
+            ops.append("H" if not shut else t + "T")
+            shut = True
+        elif k == "C":
+            ops.append("C")
+        else:
+            ops.append(t + k)
+            if k == "T" and rng.random() < 0.3:
+                ops += [t + "T"] * rng.choice([1, 2, 3])
+    if rng.random() < 0.85:
+        ops += ["aT", "bT"] * DRAIN
+    return {"ops": ops, "pseed": rng.randrange(10 ** 6), "init_a": rng.random() < 0.25, "init_b": rng.random() < 0.25}
+
+
+def run_two(case):
+    r = WriterRun(case, keys=("store", "other"))
+    ma, mb = r.mgrs
+    by = {"a": ma, "b": mb}
+    try:
+        if case.get("init_a"):
+            ma.plain_write(ma.fname, 100, 3)
+        if case.get("init_b"):
+            mb.plain_write(mb.fname, 100, 3)
+        r.start()
+
+        def observe():
+            if r.crashed:
+                return [99, 0, 99, 0, 0, 0] + ma.codes() + mb.codes()
+            return [ma.pc(), int(ma.dm._dirty._flag), mb.pc(), int(mb.dm._dirty._flag)] + r.flags() + ma.codes() + mb.codes()
+        obs = [observe()]
+        for o in case["ops"]:
+            if r.crashed:
+                pass
+            elif o == "H":
+                r.machine.thread_stopper.set()
+            elif o == "C":
+                r.crashed = True
+            elif o[1] == "S":
+                by[o[0]].save(int(o[2:]))
+            else:
+                by[o[0]].step(CMD[o[1]])
+            obs.append(observe())
+        return {"obs": obs, "exc": [ma.ctl.exc, mb.ctl.exc]}
+    finally:
+        r.close()
+
+
+def coq_op2(o):
+    if o in ("H", "C"):
+        return "(OA %s)" % coq_op(o)
+    return "(O%s %s)" % (o[0].upper(), coq_op(o[1:]))
+
+
+def coq_two(case, out):
+    inp = "(%s, (%s, %s), %s)" % (CFG, blit(case.get("init_a")), blit(case.get("init_b")),
+                                  coqlist(coq_op2(o) for o in case["ops"]))
+    return "(%s, %s)" % (inp, coqlist(zlist(o) for o in out["obs"]))
+
+
+def oracle_two(case, out):
+    """per manager: the single-manager predicate on its own projection of the run"""
+    fails = []
+    ops = case["ops"]
+    obs = out["obs"]
+    for t, (pcol, fcol) in (("a", (0, 6)), ("b", (2, 9))):
+        init = case.get("init_" + t)
+        saved = {100} if init else set()
+        for i, ob in enumerate(obs):
+            if i > 0 and ops[i - 1][:2] == t + "S" and ob[0] != 99:
+                saved.add(int(ops[i - 1][2:]))
+            f = ob[fcol]
+            if f == 0:
+                if init or any(o[fcol] != 0 for o in obs[:i]):
+                    fails.append({"sig": "file-vanished", "what": "manager %s: data file missing after it existed (op %d)" % (t, i)})
+                    break
+            elif f not in saved:
+                fails.append({"sig": "torn-file", "what": "manager %s: after op %d the data file is not a complete saved "
+                                                          "version of that manager (code %d)" % (t, i, f)})
+                break
+    if "C" in ops:
+        return fails
+    drained = len(ops) >= 2 * DRAIN and ops[-2 * DRAIN:] == ["aT", "bT"] * DRAIN
+    if not drained:
+        return fails
+    shut = next((i for i, o in enumerate(ops) if o == "H"), None)
+    last = obs[-1]
+    for t, (pcol, fcol) in (("a", (0, 6)), ("b", (2, 9))):
+        saves = [(i, int(o[2:])) for i, o in enumerate(ops) if o[:2] == t + "S"]
+        if not saves:
+            continue
+        j, v = saves[-1]
+        if shut is not None and j > shut:
+            continue
+        # faults of THIS manager after its last save excuse it; faults of the OTHER manager never do
+        own = [i for i, o in enumerate(ops) if (o == t + "E" and obs[i][pcol] in (7, 8, 9, 10)) or (o == t + "M" and obs[i][pcol] == 6)]
+        other = [i for i, o in enumerate(ops) if o[0] != t and o[1:] in ("E", "M")]
+        if own and own[-1] > j:
+            continue
+        if last[fcol] != v:
+            if own and ops[own[-1]][1] == "M":
+                sig = "lost-save-after-failed-snapshot"
+            elif own:
+                sig = "lost-save-after-failed-write"
+            elif other:
+                sig = "lost-save-other-manager-failed"
+            elif shut is not None:
+                sig = "lost-save-at-shutdown"
+            else:
+                sig = "lost-save"
+            fails.append({"sig": sig, "what": "manager %s: version %d never reached the disk (pc %d, is_busy=%d, other manager pc %d)"
+                                              % (t, v, last[pcol], last[4], last[2 - pcol])})
+        elif not (last[pcol] == 12 or (last[pcol] in (1, 2, 3) and last[pcol + 1] == 0)):
+            fails.append({"sig": "writer-stuck", "what": "manager %s neither idle nor finished after the drain (pc %d)" % (t, last[pcol])})
+    return fails
+
+
+def shrink_two(case):
+    ops = case["ops"]
+    body, tail = ops, []
+    if len(ops) >= 2 * DRAIN and ops[-2 * DRAIN:] == ["aT", "bT"] * DRAIN:
+        body, tail = ops[:-2 * DRAIN], ops[-2 * DRAIN:]
+    for i in range(len(body)):
+        yield dict(case, ops=body[:i] + body[i + 1:] + tail)
+    for k in ("init_a", "init_b"):
+        if case.get(k):
+            yield dict(case, **{k: False})
+
+
+def nontrivial_two(case, out):
+    # both threads inside FileManager.save at the same time, or one waiting for / passing the flag while the other writes
+    return any(o[0] in (7, 8, 9, 10) and o[2] in (4, 5, 6, 7, 8, 9, 10) or
+               o[2] in (7, 8, 9, 10) and o[0] in (4, 5, 6) for o in out["obs"])
+
+
+def describe_two(case):
+    ops = case["ops"]
+    return "%s%s%s" % ("shut " if "H" in ops else "", "crash " if "C" in ops else "",
+                       "err" if any(o[1:] in ("E", "M") for o in ops) else "")
+
+
+HDR_TWO = "From C15 Require Import Model Two.\nDefinition run := two_run.\nDefinition out_eqb := zss_eqb.\n"
+
+# ------------------------------------------------------------------------------------------------
+# suite "snap": the main thread ASSIGNS values in the live dict (no change of size) while the writer thread's deepcopy
+# is part of the way through it.  The CopyHook sits between the cells; everything before it has been copied when the
+# 'main thread' runs.  What is written is compared with the model of Copy.v (cell by cell).
+def gen_snap(rng, tier, i):
+    k = rng.randint(2, 6)
+    cells = [rng.choice([1, 1, 2, 3]) for _ in range(k)]
+    h = rng.randint(0, k)
+    assigns = [[rng.randrange(k), rng.choice([5, 6, 7, 8, 9])] for _ in range(rng.choice([0, 1, 1, 2, 3, 4]))]
+    if rng.random() < 0.5:      # the main thread updates cells on both sides of the point the copy has reached
+        h = rng.randint(1, k - 1)
+        assigns += [[rng.randrange(h), rng.choice([5, 6, 7])], [rng.randrange(h, k), rng.choice([5, 6, 7])]]
+        rng.shuffle(assigns)
+    return {"cells": cells, "h": h, "assigns": assigns, "pseed": 0, "save_after": rng.random() < 0.8}
+
+
+def run_snap(case):
+    r = WriterRun(case)
+    m = r.mgrs[0]
+    try:
+        r.start()
+        k = len(case["cells"])
+        live = {}
+        hook = CopyHook(live)
+        for j, v in enumerate(case["cells"]):
+            if j == case["h"]:
+                live["!hook"] = hook
+            live["c%d" % j] = v
+        if case["h"] == k:
+            live["!hook"] = hook
+        hook.assigns = [("c%d" % a, v) for a, v in case["assigns"]]
+
+        def cells_on_disk():
+            if not os.path.isfile(m.fname):
+                return None
+            d = r.FileManager.load(m.fname, halt_on_error=True)
+            return [d.get("c%d" % j) for j in range(k)] if isinstance(d, dict) and len(d) == k + 1 else "bad"
+        m.dm.save_all(live)
+        for _ in range(12):
+            if m.ctl.at == "copy":
+                break
+            m.ctl.resume("tick")
+        at_copy = m.ctl.at == "copy"
+        m.ctl.resume("assign")           # the deepcopy runs; at the hook the main thread assigns
+        for _ in range(12):
+            if m.ctl.at == "sleep1":
+                break
+            m.ctl.resume("tick")
+        first = cells_on_disk()
+        if case.get("save_after"):
+            m.dm.save_all(live)          # the caller's save_all after its assignments
+        for _ in range(DRAIN):
+            m.ctl.resume("tick")
+        return {"at_copy": at_copy, "first": first, "final": cells_on_disk(),
+                "live": [live["c%d" % j] for j in range(k)], "exc": m.ctl.exc}
+    finally:
+        r.close()
+
+
+def coq_snap(case, out):
+    if not isinstance(out["first"], list) or any(not isinstance(x, int) for x in out["first"]):
+        return "((%s, %s, %s), %s)" % (zlist(case["cells"]), zlit(case["h"]),
+                                      coqlist("(%s, %s)" % (zlit(a), zlit(v)) for a, v in case["assigns"]),
+                                      coqlist([zlist([-999]), zlist(out["live"])]))
+    return "((%s, %s, %s), %s)" % (zlist(case["cells"]), zlit(case["h"]),
+                                  coqlist("(%s, %s)" % (zlit(a), zlit(v)) for a, v in case["assigns"]),
+                                  coqlist([zlist(out["first"]), zlist(out["live"])]))
+
+
+def snap_states(case):
+    st = list(case["cells"])
+    states = [list(st)]
+    for a, v in case["assigns"]:
+        st[a] = v
+        states.append(list(st))
+    return states
+
+
+def oracle_snap(case, out):
+    fails = []
+    if out["exc"] or not out["at_copy"]:
+        fails.append({"sig": "thread-died", "what": "writer thread: %s (reached the deepcopy: %s)" % (out["exc"], out["at_copy"])})
+        return fails
+    states = snap_states(case)
+    if case.get("save_after") and out["final"] != states[-1]:
+        fails.append({"sig": "lost-save", "what": "save_all after the assignments: the file holds %s, the data is %s"
+                                                  % (out["final"], states[-1])})
+    if out["first"] not in states:
+        # neither the earlier nor the later version.  Exactly the mix an unlocked front-to-back copy produces?
+        mix = states[0][:case["h"]] + states[-1][case["h"]:]
+        if out["first"] == mix:
+            fails.append({"sig": "snapshot-mixes-versions",
+                          "what": "the main thread assigned values in the live dict while the writer thread copied it: "
+                                  "the file holds %s, a mix of %s and %s that the data never was" % (out["first"], states[0], states[-1])})
+        else:
+            fails.append({"sig": "torn-snapshot", "what": "the file holds %s; states of the data: %s" % (out["first"], states)})
+    return fails
+
+
+def shrink_snap(case):
+    a = case["assigns"]
+    for i in range(len(a)):
+        yield dict(case, assigns=a[:i] + a[i + 1:])
+
+
+def nontrivial_snap(case, out):
+    return out["first"] not in snap_states(case) or (0 < case["h"] < len(case["cells"]) and len(case["assigns"]) > 0)
+
+
+HDR_SNAP = "From C15 Require Import Copy.\nDefinition run := snap_run.\nDefinition out_eqb := zss_eqb.\n"
 
 # ------------------------------------------------------------------------------------------------
 # suite "vars": machine-variable persistence through a real file and a simulated reboot
@@ -659,38 +1085,133 @@ class TsClock:
         return float(self.t)
 
 
+# values a machine variable can take: every kind YAML can represent, with the falsy ones (0, 0.0, False, '', [], {}) and
+# numerically equal values of different types (1, 1.0, True).  "Equal" is Python's ==, which is what set_machine_var's
+# change test (value - prev_value, falling back to !=) and the property ("reload with equal values") go by: the model
+# sees a value as a token, equal tokens <=> equal values.
+PYVALS = [0, 0.0, False, "", [], {}, 1, 1.0, True, 2, 5, -3, 10 ** 12, 0.5, -2.25, "a", "0", "yes", "hello world",
+          "multi\nline\n", "\u00e9\u20ac", [0], [1, "a", None], {"a": 0}, {"k": [1, {"z": None, "f": 0.25}]}, "x" * 300, 1e20]
+
+
+def eqcanon(x):
+    """canonical text up to Python equality: 1 == 1.0 == True, dict order irrelevant"""
+    from fractions import Fraction
+    if isinstance(x, dict):
+        return "{" + ",".join(sorted(eqcanon(k) + ":" + eqcanon(v) for k, v in x.items())) + "}"
+    if isinstance(x, list):
+        return "[" + ",".join(eqcanon(v) for v in x) + "]"
+    if isinstance(x, (bool, int, float)) and x == x and x not in (float("inf"), float("-inf")):
+        return "n:" + str(Fraction(x))
+    return type(x).__name__ + ":" + repr(x)
+
+
+EXOTIC = []
+for _v in PYVALS:
+    if not (isinstance(_v, (bool, int, float)) and _v == int(_v)) and eqcanon(_v) not in EXOTIC:
+        EXOTIC.append(eqcanon(_v))
+
+
+def tok(x):
+    """value -> model token (None if the model has no token for it)"""
+    if isinstance(x, (bool, int, float)) and x == x and abs(x) != float("inf") and x == int(x):
+        return int(x)
+    c = eqcanon(x)
+    return 10 ** 6 + EXOTIC.index(c) if c in EXOTIC else None
+
+
+def opval(o):
+    return PYVALS[o[2]] if o[0] == "setv" else o[2]
+
+
+def spec_deadlines(ops, now=None):
+    """the expiry time of every variable as the documentation defines it, from the history alone: expire_secs after the
+    last time the variable was set (or configured).  -> ({name: deadline or None}, now at the end, all deadlines seen)"""
+    now = T0 if now is None else now
+    st = {}
+    seen = []
+    for o in ops:
+        if o[0] == "adv":
+            now += o[1]
+        elif o[0] == "conf":
+            st[o[1]] = {"secs": o[3] or None, "deadline": now + o[3] if o[3] else None}
+        elif o[0] in ("set", "setv"):
+            v = st.setdefault(o[1], {"secs": None, "deadline": None})
+            if v["secs"]:
+                v["deadline"] = now + v["secs"]
+        elif o[0] == "remove":
+            st.pop(o[1], None)
+        seen += [v["deadline"] for v in st.values() if v["deadline"]]
+    return {n: v["deadline"] for n, v in st.items()}, now, sorted(set(seen))
+
+
+TAMPERS = ["missing", "empty", "corrupt", "binary", "list", "scalar", "entry_scalar", "entry_novalue"]
+
+
 def gen_vars(rng, tier, i):
     ops = []
     n = rng.randint(3, 14)
+    lastv = {}
+
+    def setop(name, persist):
+        r = rng.random()
+        if name in lastv and r < 0.3:
+            o = list(lastv[name])               # the same value again
+            if o[0] == "setv" and rng.random() < 0.5:
+                same = [k for k, v in enumerate(PYVALS) if eqcanon(v) == eqcanon(PYVALS[o[2]])]
+                o[2] = rng.choice(same)         # ... or an equal value of another type (1 / 1.0 / True)
+            o[3] = persist
+        elif r < 0.6:
+            o = ["setv", name, rng.randrange(len(PYVALS)), persist]
+        else:
+            o = ["set", name, rng.choice([0, 1, 1, 2, 5, -3, 10 ** 12, rng.randint(-5, 5)]), persist]
+        lastv[name] = o
+        return o
+    if rng.random() < 0.3:
+        # a persisted variable with an expiry that is set again (same or new value) part of the way to its deadline
+        name = rng.choice([1, 2])
+        e = rng.choice([10, 100, 3600])
+        ops += [["conf", name, True, e], setop(name, False), ["adv", rng.choice([1, e // 2, e - 1, e, e + 1])],
+                setop(name, False)]
+        if rng.random() < 0.5:
+            ops.append(["adv", rng.choice([0, 1, e // 2, e - 1])])
     while len(ops) < n:
         r = rng.random()
         name = rng.choice([1, 1, 2, 2, 3, 4])
         if r < 0.45:
-            ops.append(["set", name, rng.choice([0, 1, 1, 2, 5, -3, 10 ** 12, rng.randint(-5, 5)]), rng.random() < 0.4])
+            ops.append(setop(name, rng.random() < 0.4))
         elif r < 0.65:
             ops.append(["conf", name, rng.random() < 0.8, rng.choice([0, 0, 10, 100, 3600])])
             if rng.random() < 0.7:      # the usual pattern: configure, then set
-                ops.append(["set", name, rng.choice([0, 1, 2, 5, rng.randint(-5, 5)]), False])
+                ops.append(setop(name, False))
         elif r < 0.75:
             ops.append(["remove", name])
+            lastv.pop(name, None)
         else:
             ops.append(["adv", rng.choice([0, 1, 9, 10, 11, 50, 100, 3600])])
-    return {"ops": ops, "dt": rng.choice([0, 1, 9, 10, 11, 89, 90, 99, 100, 101, 3599, 3600, 3601, 5000, 100000])}
+    # reboot times: on both sides of, and exactly at, every deadline a variable had at any time of the history
+    _, now, seen = spec_deadlines(ops)
+    dts = [0, 1, 9, 10, 11, 89, 90, 99, 100, 101, 3599, 3600, 3601, 5000, 100000]
+    near = [d - now + k for d in seen for k in (-1, 0, 1) if d - now + k >= 0]
+    case = {"ops": ops, "dt": rng.choice(near) if near and rng.random() < 0.6 else rng.choice(dts)}
+    if rng.random() < 0.2:
+        case["tamper"] = [rng.choice(TAMPERS), rng.choice([1, 2, 3, 4])]
+    return case
 
 
 class Boot:
     """one 'power cycle': real DataManager (lock-stepped writer thread) + real MachineVariables on a fake machine"""
 
     def __init__(self, d, now):
-        global CUR
         install_shims()
         from mpf.core.file_manager import FileManager
         from mpf.core.data_manager import DataManager
         from mpf.core.machine_vars import MachineVariables
         FileManager.is_busy = False
         self.FileManager = FileManager
-        self.ctl = Ctl()
-        CUR = self.ctl
+        fname = os.path.join(d, "data", "machine_vars.yaml")
+        self.ctl = Ctl(fname, os.path.join(d, "data", "_machine_vars.yaml"))
+        del NEXT_CTL[:]
+        NEXT_CTL.append(self.ctl)
         self.machine = FakeMachine(d, "machine_vars", "data/machine_vars.yaml")
         self.machine.clock = TsClock(now)
         self.dm = DataManager(self.machine, "machine_vars", min_wait_secs=1)
@@ -712,19 +1233,63 @@ class Boot:
         return self.ctl.at == "done"
 
     def close(self):
-        global CUR
         self.ctl.kill()
-        CUR = None
         self.FileManager.is_busy = False
 
 
 def vz(x):
-    """int/None/float-with-integer-value -> [has, value]"""
+    """value -> [has, token]"""
     if x is None:
         return [0, 0]
-    if isinstance(x, bool) or not isinstance(x, (int, float)) or x != int(x):
+    t = tok(x)
+    if t is None:
         return [7, 7]            # nothing the model can produce
-    return [1, int(x)]
+    return [1, t]
+
+
+def ez(x):
+    """expire / expire_secs as stored: None or a whole number of seconds"""
+    if x is None:
+        return 0
+    if isinstance(x, bool) or not isinstance(x, (int, float)) or x != int(x):
+        return -7
+    return int(x)
+
+
+def tamper_file(fname, how, n):
+    """what the next boot may find instead of the file a clean shutdown left (disk trouble, manual edits)"""
+    import io
+    name = VNAMES[n]
+    if how == "missing":
+        if os.path.exists(fname):
+            os.unlink(fname)
+    elif how == "empty":
+        open(fname, "w").close()
+    elif how == "corrupt":
+        with open(fname, "w", encoding="utf8") as f:
+            f.write("credit_units:\n  value: [1, 2\n  expire: {\n")
+    elif how == "binary":
+        with open(fname, "wb") as f:
+            f.write(b"\xff\xfe\x00\x80 not utf8 \xc3\x28")
+    elif how == "list":
+        with open(fname, "w", encoding="utf8") as f:
+            f.write("- 1\n- value: 2\n")
+    elif how == "scalar":
+        with open(fname, "w", encoding="utf8") as f:
+            f.write("just a string\n")
+    else:
+        from ruamel import yaml
+        y = yaml.YAML(typ="safe")
+        d = {}
+        if os.path.isfile(fname):
+            with open(fname, encoding="utf8") as f:
+                d = y.load(f) or {}
+        if how == "entry_scalar":
+            d[name] = 5
+        else:
+            d[name] = {"expire": None, "expire_secs": None}
+        with open(fname, "w", encoding="utf8") as f:
+            y.dump(d, f)
 
 
 def run_vars(case):
@@ -736,8 +1301,8 @@ def run_vars(case):
         rows = []
         conf_at = {}
         for o in case["ops"]:
-            if o[0] == "set":
-                b.mv.set_machine_var(VNAMES[o[1]], o[2], persist=o[3])
+            if o[0] in ("set", "setv"):
+                b.mv.set_machine_var(VNAMES[o[1]], opval(o), persist=o[3])
             elif o[0] == "conf":
                 b.mv.configure_machine_var(VNAMES[o[1]], persist=o[2], expire_secs=o[3] or None)
                 conf_at[o[1]] = b.dm._dirty.nset
@@ -751,14 +1316,14 @@ def run_vars(case):
                 if e is None:
                     row += [0, 0, 0, 0, 0]
                 else:
-                    row += [1] + vz(e["value"]) + [vz(e["expire"])[1], vz(e["expire_secs"])[1]]
+                    row += [1] + vz(e["value"]) + [ez(e["expire"]), ez(e["expire_secs"])]
             rows.append(row)
         nowb = b.machine.clock.t + case["dt"]
         old = {}
         for n in (1, 2, 3, 4):
             v = b.mv.machine_vars.get(VNAMES[n])
             if v is not None:
-                old[str(n)] = {"value": canon(v["value"]), "persist": bool(v["persist"]),
+                old[str(n)] = {"eq": eqcanon(v["value"]), "persist": bool(v["persist"]),
                                "timeout": v["timeout"], "unwritten_conf": conf_at.get(n) == b.dm._dirty.nset}
         handed = canon(b.dm.data)
         wrote = b.dm._dirty.nset > 0
@@ -767,18 +1332,41 @@ def run_vars(case):
         ondisk = canon(b.FileManager.load(fname, halt_on_error=False)) if os.path.isfile(fname) else None
         b.close()
         b = None
-        b2 = Boot(d, nowb)
+        tam = case.get("tamper")
+        if tam:
+            tamper_file(fname, tam[0], tam[1])
+        boot_exc = None
         new = {}
         lrow = []
-        for n in (1, 2, 3, 4):
-            v = b2.mv.machine_vars.get(VNAMES[n])
-            if v is None:
-                lrow += [0, 0, 0]
-            else:
-                lrow += [1] + vz(v["value"])
-                new[str(n)] = {"value": canon(v["value"]), "persist": bool(v["persist"])}
+        after = None
+        try:
+            b2 = Boot(d, nowb)
+        except Exception as e:       # noqa: the boot must survive whatever is in the file
+            boot_exc = type(e).__name__ + ": " + str(e)[:100]
+        if b2 is not None:
+            for n in (1, 2, 3, 4):
+                v = b2.mv.machine_vars.get(VNAMES[n])
+                if v is None:
+                    lrow += [0, 0, 0]
+                else:
+                    lrow += [1] + vz(v["value"])
+                    new[str(n)] = {"eq": eqcanon(v["value"]), "z": vz(v["value"]), "persist": bool(v["persist"])}
+            if tam:
+                # later saves work after such a boot: a new persisted variable reaches a complete file
+                b2.mv.set_machine_var("after_boot", 77, persist=True)
+                ok = b2.flush_and_stop()
+                try:
+                    dd = b2.FileManager.load(fname, halt_on_error=True)
+                    after = [ok, isinstance(dd, dict) and isinstance(dd.get("after_boot"), dict) and
+                             dd["after_boot"].get("value") == 77,
+                             sorted(k for k in dd if k in VNAMES.values()) ==
+                             sorted(VNAMES[int(n)] for n in new) if isinstance(dd, dict) else False]
+                except Exception as e:   # noqa
+                    after = [ok, False, False]
+        else:
+            lrow = [9] * 12
         return {"rows": rows + [lrow], "old": old, "new": new, "nowb": nowb, "ended": ended,
-                "handed": handed, "ondisk": ondisk, "wrote": wrote}
+                "handed": handed, "ondisk": ondisk, "wrote": wrote, "boot_exc": boot_exc, "after": after}
     finally:
         for x in (b, b2):
             if x is not None:
@@ -787,8 +1375,11 @@ def run_vars(case):
 
 
 def coq_vop(o):
-    if o[0] == "set":
-        return "(VSet %d %s %s)" % (o[1], zlit(o[2]), blit(o[3]))
+    if o[0] in ("set", "setv"):
+        t = tok(opval(o))
+        if t is None:
+            raise ValueError("no token for %r" % (opval(o),))
+        return "(VSet %d %s %s)" % (o[1], zlit(t), blit(o[3]))
     if o[0] == "conf":
         return "(VConf %d %s %s)" % (o[1], blit(o[2]), zlit(o[3]))
     if o[0] == "remove":
@@ -796,9 +1387,18 @@ def coq_vop(o):
     return "(VAdv %s)" % zlit(o[1])
 
 
+def tamper_code(case):
+    tam = case.get("tamper")
+    if not tam:
+        return 0
+    if tam[0] in ("entry_scalar", "entry_novalue"):
+        return 10 + tam[1]
+    return 1 + TAMPERS.index(tam[0])
+
+
 def coq_vars(case, out):
-    return "((%s, %s), %s)" % (coqlist(coq_vop(o) for o in case["ops"]), zlit(case["dt"]),
-                               coqlist(zlist(r) for r in out["rows"]))
+    return "((%s, %s, %s), %s)" % (coqlist(coq_vop(o) for o in case["ops"]), zlit(case["dt"]), zlit(tamper_code(case)),
+                                   coqlist(zlist(r) for r in out["rows"]))
 
 
 def oracle_vars(case, out):
@@ -808,33 +1408,58 @@ def oracle_vars(case, out):
     if out["wrote"] and out["ondisk"] != out["handed"]:
         fails.append({"sig": "vars-file-differs", "what": "after a clean shutdown the machine_vars file differs from "
                                                           "the data last handed to save_all"})
+    if out.get("boot_exc"):
+        fails.append({"sig": "boot-fails-on-bad-file", "what": "boot with a %s machine_vars file raised %s"
+                                                               % (case.get("tamper"), out["boot_exc"])})
+        return fails
+    tam = case.get("tamper")
+    if tam and out.get("after") != [True, True, True]:
+        fails.append({"sig": "save-lost-after-bad-file-boot",
+                      "what": "after booting from a %s file a new persisted variable did not reach a complete file "
+                              "holding it and the reloaded ones %s" % (tam[0], out.get("after"))})
+    whole = tam and tam[0] not in ("entry_scalar", "entry_novalue")
+    if whole:
+        if out["new"]:
+            fails.append({"sig": "loaded-from-bad-file", "what": "variables %s appeared from a %s file" % (sorted(out["new"]), tam[0])})
+        return fails
     last_disk = out["rows"][-2] if len(out["rows"]) >= 2 else [0] * 21
+    deadlines, _, _ = spec_deadlines(case["ops"])
+    if tam and str(tam[1]) in out["new"]:
+        fails.append({"sig": "malformed-entry-loaded", "what": "malformed entry %d was loaded" % tam[1]})
     for n, o in out["old"].items():
         if not o["persist"]:
             continue
-        expired = bool(o["timeout"]) and o["timeout"] < out["nowb"]
+        if tam and int(n) == tam[1]:
+            continue        # that entry was made malformed: it must be skipped, the others must load
+        # the expiry time: expire_secs after the variable was last set, by the history (not by the implementation's
+        # bookkeeping, which a changed set_machine_var may get wrong)
+        dl = deadlines.get(int(n))
+        expired = bool(dl) and dl < out["nowb"]
         got = out["new"].get(n)
-        gotv = None if got is None else got["value"]
+        gotv = None if got is None else got["eq"]
         if expired and got is None:
             continue
-        if not expired and (gotv == o["value"] or (got is None and o["value"] == "NoneType:None")):
+        if not expired and (gotv == o["eq"] or (got is None and o["eq"] == "NoneType:None")):
             continue
         # a failure.  Is it exactly what "configure_machine_var does not write" produces?  Then the stale entry handed
         # to save_all before that configure call decides what reloads.
         k = 1 + 5 * (int(n) - 1)
         present, has, val, exp = last_disk[k], last_disk[k + 1], last_disk[k + 2], last_disk[k + 3]
         stale_loaded = bool(present) and not (exp and exp < out["nowb"])
-        stale_val = ("int:%d" % val) if has == 1 else "NoneType:None"
-        by_defect = (got is None and not stale_loaded) or (got is not None and stale_loaded and gotv == stale_val)
+        by_defect = (got is None and not stale_loaded) or (got is not None and stale_loaded and got["z"] == [has, val])
         if o["unwritten_conf"] and by_defect:
             fails.append({"sig": "persist-configured-not-written",
                           "what": "configure_machine_var changed persist/expiry of a variable and nothing was written "
                                   "afterwards: the next boot goes by the stale entry on disk"})
         elif expired:
             fails.append({"sig": "expired-var-reloaded", "what": "variable %s reloaded after its expiry time" % n})
+        elif got is None:
+            fails.append({"sig": "persisted-var-not-reloaded",
+                          "what": "persistent variable %s = %s (expiry %s, boot at %s) is not there after the reboot"
+                                  % (n, o["eq"][:60], dl, out["nowb"])})
         else:
             fails.append({"sig": "persist-reload-differs",
-                          "what": "persistent variable %s = %s reloads as %s" % (n, o["value"], got)})
+                          "what": "persistent variable %s = %s reloads as %s" % (n, o["eq"][:60], gotv[:60])})
     return fails
 
 
@@ -842,6 +1467,10 @@ def shrink_vars(case):
     ops = case["ops"]
     for i in range(len(ops)):
         yield dict(case, ops=ops[:i] + ops[i + 1:])
+    if case.get("tamper"):
+        c = dict(case)
+        del c["tamper"]
+        yield c
 
 
 def nontrivial_vars(case, out):
@@ -851,10 +1480,10 @@ def nontrivial_vars(case, out):
 
 def describe_vars(case):
     k = set(o[0] for o in case["ops"])
-    return " ".join(sorted(k))
+    return " ".join(sorted(k)) + (" tamper:" + case["tamper"][0] if case.get("tamper") else "")
 
 
-HDR_VARS = "From C15 Require Import Model.\nDefinition run := vars_run.\nDefinition out_eqb := zss_eqb.\n"
+HDR_VARS = "From C15 Require Import Model.\nDefinition run := vars_run_t.\nDefinition out_eqb := zss_eqb.\n"
 
 # ------------------------------------------------------------------------------------------------
 # suite "fsave": FileManager.save called directly with the REAL YamlInterface and the REAL ruamel dumper (nothing of the
@@ -883,10 +1512,9 @@ def gen_fsave(rng, tier, i):
 
 
 def run_fsave(case):
-    global FS_FAULT, CUR
+    global FS_FAULT
     install_shims()
     from mpf.core.file_manager import FileManager
-    CUR = None
     FileManager.is_busy = False
     if not FileManager.initialized:
         FileManager.init()
@@ -1022,6 +1650,10 @@ HDR_WRITER = "From C15 Require Import Model.\nDefinition run := writer_run.\nDef
 SUITES = [
     Suite("writer", gen_writer, run_writer, HDR_WRITER, coq_writer, oracle_writer, shrink_writer, nontrivial_writer,
           {"quick": 1600, "thorough": 40000}, describe=describe_writer, shard=200),
+    Suite("two", gen_two, run_two, HDR_TWO, coq_two, oracle_two, shrink_two, nontrivial_two,
+          {"quick": 400, "thorough": 12000}, describe=describe_two, shard=200),
+    Suite("snap", gen_snap, run_snap, HDR_SNAP, coq_snap, oracle_snap, shrink_snap, nontrivial_snap,
+          {"quick": 150, "thorough": 4000}, shard=200),
     Suite("vars", gen_vars, run_vars, HDR_VARS, coq_vars, oracle_vars, shrink_vars, nontrivial_vars,
           {"quick": 600, "thorough": 15000}, describe=describe_vars, shard=200),
     Suite("fsave", gen_fsave, run_fsave, HDR_FSAVE, coq_fsave, oracle_fsave, shrink_fsave, nontrivial_fsave,
@@ -1029,19 +1661,27 @@ SUITES = [
 ]
 
 LEVEL_TEXT = ("Machine-checked proof (Coq) over a program-counter model of DataManager._writing_thread + FileManager.save + the "
-              "two files on disk, for ALL schedules of saves, shutdown, crashes and I/O errors: the data file is always a "
-              "complete version that was saved earlier (os.replace is its only writer; a crash freezes the disk as it is); "
-              "with the final-flush fix a clean shutdown leaves the last saved version on disk; with the try/finally fix a "
-              "failed write never blocks later saves (a new save lands within 24 thread steps from any reachable state). "
-              "Both fixes are needed: the same statements are refuted (vm_compute witnesses, reproduced on the unpatched "
-              "code) for the code before the patches. Machine variables: reload restores exactly the unexpired entries; "
-              "persisted variables reload equal whenever the file is in sync, which every op except configure_machine_var "
-              "maintains (known finding). The model is tied to the working tree by lock-stepping the real writer thread.")
-LEVEL_NOTE = ("Trusted: Coq kernel + vm_compute; no axioms. Hand-written model; correspondence validates flags, pc and directory "
-              "contents after every op of generated schedules against the real thread (run under shims for time.sleep, "
-              "threading.Event, copy.deepcopy, open, os.replace). Partial: process-crash model only (no fsync/power-loss "
-              "ordering); one data manager (the unlocked is_busy test-and-set between several managers is not modelled); "
-              "MachineController.shutdown does not join the writer thread - 'clean shutdown' here means the thread is "
-              "allowed to finish; YAML codec not modelled (round trip of every payload checked by the oracle).")
-TECHNIQUE = "Coq proof over hand-written executable model + differential correspondence (vm_compute) with a lock-stepped real writer thread + direct disk oracle"
+              "two files on disk, for ALL schedules of saves, shutdown, crashes, I/O errors and failed snapshots: the data file "
+              "is always a complete version that was saved earlier (os.replace is its only writer; a crash freezes the disk); "
+              "a clean shutdown leaves the last saved version on disk; a failed write or failed snapshot never blocks later "
+              "saves (lands within 24 steps from any reachable state; a failed snapshot is retried). The same for TWO managers "
+              "sharing the unlocked FileManager.is_busy flag under every interleaving (never torn, both last saves land, a "
+              "failure of one does not block the other within 24 fair rounds; the race itself is exhibited and harmless). "
+              "Each repair is needed: the statements are refuted (vm_compute witnesses replayed on the code) for the code before "
+              "final-flush, busy-finally and snapshot-in-try. Crash points at os-call level: a call sequence is safe at every "
+              "prefix iff the only calls touching the data file rename a complete file onto it (rotation / remove-first / "
+              "in-place variants refuted). Machine variables: reload restores exactly the unexpired, well-formed entries "
+              "(values of every YAML kind as tokens); persisted variables reload equal whenever the file is in sync, which every "
+              "op except configure_machine_var maintains (known finding). The snapshot is only cell-wise consistent (known "
+              "finding snapshot-mixes-versions). Models tied to the working tree by lock-stepping the real threads.")
+LEVEL_NOTE = ("Trusted: Coq kernel + vm_compute; no axioms. Hand-written models; correspondence validates flags, pcs and directory "
+              "contents after every op of generated schedules against the real threads (shims for time.sleep, threading.Event, "
+              "copy.deepcopy, open; audit hook for every os-level call). Partial: process-crash model tied, power loss modelled "
+              "only (ordered write-back assumed; no fsync in the code); liveness for two managers under a round-robin window; "
+              "MachineController.shutdown does not join the writer threads - 'clean shutdown' means the threads are allowed to "
+              "finish; persist_reload_equal stays _partial (guard: no configure since the last write = known finding); YAML codec "
+              "not modelled (round trip of every payload/value checked by the oracle); after-bad-file-boot save check is "
+              "oracle-only.")
+TECHNIQUE = ("Coq proof over hand-written executable models + differential correspondence (vm_compute) with lock-stepped real "
+             "writer threads (one and two managers) + direct disk/reboot oracle")
 DESIGN_REF = "DESIGN.md section 3, C15"
